@@ -11,7 +11,7 @@ import CalVerif.Spec.FormulaTokens
     dim <hex>                        → ok sr sc er ec | err | panic           (model `getDimension`)
     sheet <cell>;<cell>;…            → ok r,c,<hex>;… | err | panic           (model `worksheet_formula`)
         cell = r,c,N | r,c,P,<hex> | r,c,M,<si>,<hex ref>,<hex> | r,c,C,<si>,<hex> | r,c,X,<hex> (shared, no si)
-    toks  = tok;tok;…   tok = R,<colAbs 0|1>,<col>,<rowAbs 0|1>,<row> | S,<hex> | Q,<hex> | U,<hex> | I,<hex> | N,<hex> | P,<hex> -/
+    toks  = tok;tok;…   tok = R,<colAbs 0|1>,<col>,<rowAbs 0|1>,<row> | S,<hex> | Q,<hex> | U,<hex> | I,<hex> | N,<hex> | B,<hex> ([…] span) | P,<hex> -/
 
 open SharedFormula FormulaTokens
 
@@ -33,6 +33,7 @@ def parseTok (s : String) : Option Tok :=
   | ["U", h] => (decodeText h).map (.sheet · false)
   | ["I", h] => (decodeText h).map .ident
   | ["N", h] => (decodeText h).map .num
+  | ["B", h] => (decodeText h).map .struct
   | ["P", h] => match decodeText h with
     | some [c] => some (.punct c)
     | _ => none
